@@ -168,6 +168,9 @@ func (g *gen) chanInOut(name string, typs []types.Type) (inTyp, outTyp types.Typ
 	if !ok {
 		return nil, nil, fmt.Errorf("%s, the second argument, %s, is not of type chan", name, g.TypeString(typs[1]))
 	}
+	if chanType.Dir() == types.SendOnly {
+		return nil, nil, fmt.Errorf("%s, the second argument, %s, is a send only channel, which cannot be received from", name, g.TypeString(typs[1]))
+	}
 	sig, ok := typs[0].(*types.Signature)
 	if !ok {
 		return nil, nil, fmt.Errorf("%s, the first argument, %s, is not of type function", name, g.TypeString(typs[0]))
